@@ -114,10 +114,22 @@ fn gen_collist(g: &mut G<'_>, allow_zero: bool) -> Vec<ColGen> {
     if n >= 2 && g.chance(1, 8) {
         let j = g.usize_in(1, n - 1);
         let i = g.usize_in(0, j - 1);
-        match g.below(3) {
+        match g.below(4) {
             0 => v[j] = v[i].clone(),
             1 => v[j].name = v[i].name.clone(),
-            _ => v[j].table = v[j].name.clone(),
+            2 => v[j].table = v[j].name.clone(),
+            _ => {
+                // two columns whose table and name read the same once joined - ("a.b", "c") and
+                // ("a", "b.c") - with the same type and flags
+                let sep = *g.pick(&[".", ".", "", "\u{0}", "`", "/"]);
+                let parts: Vec<String> = (0..3).map(|_| { let n = g.usize_in(0, 3); (0..n).map(|_| *g.pick(&['a', 'b', 't', '1', 'é'])).collect() }).collect();
+                v[i].table = NameSpec::Lit(format!("{}{}{}", parts[0], sep, parts[1]));
+                v[i].name = NameSpec::Lit(parts[2].clone());
+                v[j].table = NameSpec::Lit(parts[0].clone());
+                v[j].name = NameSpec::Lit(format!("{}{}{}", parts[1], sep, parts[2]));
+                v[j].coltype = v[i].coltype;
+                v[j].flags = v[i].flags;
+            }
         }
     }
     v
